@@ -800,7 +800,10 @@ def _labels():
 
 def enum_validity_aggregate(tier):
   labels = _labels()
-  for idx, label in enumerate(labels):
+  # the expensive lattice cases (thorough only) first, so that their shards start with them
+  order = sorted(range(len(labels)), key=lambda i: (not labels[i].startswith('FindBias'), i))
+  for idx in order:
+    label = labels[idx]
     lattice = label.startswith('FindBias')
     if tier == 'quick':
       if lattice:
